@@ -245,6 +245,18 @@ def run(ctx):
     for pc, exc, node, rst in ws.raises:
         ctx.ob("C07.c", w.qual, f"{wp}._packet_id" not in rst.env, "a failed write does not advance the counter", func=w.qual, file=file, node=node,
                fail="the counter advances although the write failed")
+    # ... and nothing else moves it: the counter belongs to the connection, not to the handshake - a store anywhere but the constructor and
+    # write() (a "new session restarts the count" reset in authenticate, a rewind on an error path) breaks previous + 1 on that connection
+    from .c06 import store_owners
+    pst = stores_to(prog, V3, "_packet_id")
+    owners = store_owners(prog, pst)
+    extra = [q for q in owners if q not in (f"{V3}.__init__", w.qual)]
+    ctx.count("counter_store_owners", len(owners))
+    ctx.ob("C07.c", V3, not extra, "the packet counter is stored only by the constructor (0) and by write() (+1)", func=V3, file=file, construct="stores to self._packet_id",
+           node=next((n for f, n in pst if f.qual in extra or (not prog.is_known(f.qual) and f.qual not in (f"{V3}.__init__", w.qual))), None),
+           detail={"owners": owners},
+           fail=f"the packet counter is also stored by {', '.join(q.split('.')[-1] for q in extra)}: on a connection that sees a second handshake (expiry, explicit "
+                "re-authentication, a retried handshake) the next packet's counter is not the previous one plus one")
     enc_terms = {x for t in ws.ta.terms_at.values() for x in subterms(t)
                  if call_is(x, f"{V3}._encode_encrypted_request", f"{V3}._encode_handshake_request")}
     for x in sorted(enc_terms, key=show):
